@@ -200,6 +200,13 @@ Theorem C03_capped_delta_variant_refuted :
             lookup "b" (n_ents dv_owner) <> None.
 Proof. exact capped_variant_refuted. Qed.
 
+(* ... and the check is tight: every destination list the harness accepts for a membership is what gossipRound sends for
+   some pair of random numbers *)
+Theorem C03_round_legal_complete :
+  forall c dsts, round_legal c dsts = true ->
+  exists r1 r2, map n_addr (round_targets (live_peers c) (unreach_peers c) r1 r2) = dsts.
+Proof. exact round_legal_complete. Qed.
+
 Print Assumptions C03_no_regress.
 Print Assumptions C03_progress.
 Print Assumptions C03_nonempty_when_fits.
@@ -218,3 +225,4 @@ Print Assumptions C03_rounds_cover.
 Print Assumptions C03_round_targets_legal.
 Print Assumptions C03_ex_round.
 Print Assumptions C03_capped_delta_variant_refuted.
+Print Assumptions C03_round_legal_complete.
